@@ -33,11 +33,16 @@ type scen struct {
 	KeepAlive  bool   `json:"keepalive"`
 	Disconnect bool   `json:"disconnect"`
 	Special    bool   `json:"special"` // payload strings containing framing look-alikes
+	// Pair: a second request ({name}) is served concurrently by the same server; both
+	// streams must be well-framed and carry their own payloads
+	Pair bool `json:"pair,omitempty"`
 }
 
 type inst struct {
 	sc           scen
 	rw           *rig.RW
+	rw2          *rig.RW
+	log2         *handschema.Log
 	log          *handschema.Log
 	emitted      []string // payload data produced by the operation, in order
 	handlerDone  bool
@@ -96,7 +101,25 @@ func (in *inst) Body() {
 	req := httptest.NewRequest("POST", "/query", bytes.NewReader(body)).WithContext(ctx)
 	req.Header.Set("Accept", accept)
 	req.Header.Set("Content-Type", "application/json")
+	req = req.WithContext(handschema.WithLog(req.Context(), in.log))
+	var pairDone chan struct{}
+	if in.sc.Pair {
+		in.rw2 = rig.NewRW()
+		in.log2 = &handschema.Log{}
+		pairDone = make(chan struct{}, 1)
+		b2, _ := json.Marshal(map[string]any{"query": "{name big}"})
+		r2 := httptest.NewRequest("POST", "/query", bytes.NewReader(b2)).WithContext(handschema.WithLog(ctx, in.log2))
+		r2.Header.Set("Accept", accept)
+		r2.Header.Set("Content-Type", "application/json")
+		vrt.Go("second-request", func() {
+			srv.ServeHTTP(in.rw2, r2)
+			vrt.Send(pairDone, struct{}{})
+		})
+	}
 	srv.ServeHTTP(in.rw, req)
+	if pairDone != nil {
+		vrt.Recv(pairDone)
+	}
 	in.handlerDone = true
 	in.lateWrites = len(in.rw.Writes)
 	cancel() // net/http cancels the request context once the handler has returned
@@ -134,10 +157,29 @@ func (in *inst) Check(x *explore.Exec) (string, string) {
 		}
 		return "", ""
 	}
+	var sig, msg string
 	if tp == "sse" {
-		return in.checkSSE()
+		sig, msg = in.checkSSE()
+	} else {
+		sig, msg = in.checkMixed()
 	}
-	return in.checkMixed()
+	if sig == "" && in.sc.Pair && in.rw2 != nil {
+		// judge the second stream with the same parsers
+		other := &inst{sc: in.sc, rw: in.rw2, log: in.log2, handlerDone: true}
+		other.lateWrites = len(in.rw2.Writes)
+		if len(in.rw2.Concurrent) > 0 {
+			return tp + ":concurrent-responsewriter-use", strings.Join(in.rw2.Concurrent, "; ")
+		}
+		if tp == "sse" {
+			sig, msg = other.checkSSE()
+		} else {
+			sig, msg = other.checkMixed()
+		}
+		if sig != "" {
+			sig, msg = sig+":second-stream", "concurrent request's stream: "+msg
+		}
+	}
+	return sig, msg
 }
 
 func firstLine(s string) string {
@@ -376,7 +418,19 @@ func scenarios(tier string) []*explore.Scenario {
 	add := func(s scen) {
 		s2 := s
 		name := fmt.Sprintf("%s q=%s k=%d ka=%v dc=%v sp=%v", s.Transport, s.Query, s.Payloads, s.KeepAlive, s.Disconnect, s.Special)
-		out = append(out, &explore.Scenario{Name: name, Meta: s2, New: func() explore.Instance { return &inst{sc: s2} }})
+		if s.Pair {
+			name += " pair"
+		}
+		var bound *int
+		if s.Pair {
+			// two whole requests interleave: explored with fewer deviations
+			b := 2
+			if tier == "thorough" {
+				b = 3
+			}
+			bound = &b
+		}
+		out = append(out, &explore.Scenario{Name: name, Meta: s2, Bound: bound, New: func() explore.Instance { return &inst{sc: s2} }})
 	}
 	maxK := 2
 	if tier == "thorough" {
@@ -391,6 +445,11 @@ func scenarios(tier string) []*explore.Scenario {
 			}
 		}
 	}
+	// two streams served concurrently by one server
+	add(scen{Transport: "sse", Query: "{a name}", Pair: true})
+	add(scen{Transport: "sse", Query: "subscription{s2}", Payloads: 1, Pair: true})
+	add(scen{Transport: "mixed", Query: "{a name}", Payloads: 1, Pair: true})
+	add(scen{Transport: "mixed", Query: "{a name}", Payloads: 0, Pair: true})
 	for _, dc := range []bool{false, true} {
 		add(scen{Transport: "mixed", Query: "{nosuchfield}", Disconnect: dc})
 		for k := 0; k <= maxK; k++ {
